@@ -151,6 +151,22 @@ def gen_typetables(repo):
                         and isinstance(s.body[0].value, ast.Constant) and s.body[0].value.value is False:
                     generic_isinstance = True
 
+    # _is_subtype, Union super type: exact membership (`sub_type in type_args`) or some member is a super type (any(_is_subtype(..)));
+    # _get_class_of_type_annotation: `__origin__` read with getattr (a ForwardRef has none)
+    ist = find_func(tree, '_is_subtype')
+    union_by_subtype = False
+    union_exact = False
+    for n in ast.walk(ist):
+        if isinstance(n, ast.Return) and n.value is not None:
+            txt = ast.unparse(n.value)
+            if txt.startswith('any(') and '_is_subtype(' in txt and 'sub_type=sub_type' in txt.replace(' ', '') and 'type_args' in txt:
+                union_by_subtype = True
+            if txt.replace(' ', '') == 'sub_typeintype_args':
+                union_exact = True
+    gc = find_func(tree, '_get_class_of_type_annotation')
+    class_of_guards_origin = "getattr(annotation, '__origin__', None)" in ast.unparse(gc) and 'annotation.__origin__ is not None' not in ast.unparse(gc)
+    if union_by_subtype == union_exact:
+        raise Skip('_is_subtype: the last statement of the Union branch is neither the membership test nor any(_is_subtype(..))')
     # _check_type: guard of the None base in the string branch; the last except arm
     ct = find_func(tree, '_check_type')
     guards_none_base = False
@@ -313,6 +329,10 @@ def lookup (t : List (String × Nat)) (k : String) : Option Nat :=
     L.append('/-- `_check_type`, string branch: a name that is a class of the context is checked with isinstance against that class; the')
     L.append('    name comparison runs over the names of the whole MRO -/')
     L.append(f'def strBranchResolvesInContext : Bool := {lean_bool(str_ctx)}')
+    L.append('/-- `_is_subtype` with a Union super type: some member is a super type (else: exact membership); -/')
+    L.append(f'def unionSuperBySubtype : Bool := {lean_bool(union_by_subtype)}')
+    L.append('/-- `_get_class_of_type_annotation` reads `__origin__` with getattr (a ForwardRef inside Type[..] is answered, not an AttributeError) -/')
+    L.append(f'def classOfGuardsOrigin : Bool := {lean_bool(class_of_guards_origin)}')
     L.append(f'def strBranchComparesMro : Bool := {lean_bool(str_mro)}')
     L.append('/-- classes named by the last `except` arm around `_is_instance` -/')
     L.append('def catchAll : List String := ' + lean_list(lean_str(x) for x in catch_all))
